@@ -74,6 +74,8 @@ fn note_clone(tag: u32) {
 pub trait Payload: Clone + Send + 'static {
     const ALLOCATES: bool;
     const NAME: &'static str;
+    /// zero sized: carries no identity, only the global creation / drop counters exist
+    const ANON: bool = false;
     fn new(tag: u32) -> Self;
     fn tag(&self) -> u32;
 }
@@ -149,5 +151,36 @@ impl Clone for BVal {
 impl Drop for BVal {
     fn drop(&mut self) {
         note_drop(*self.b);
+    }
+}
+
+/// Zero sized payload (a unit struct with a `Drop` impl): collections special-case such types
+/// (`VecDeque::<ZST>::capacity()` is `usize::MAX`). No identity; drops are counted globally and the
+/// monitors look at the difference across single calls.
+#[derive(Debug)]
+pub struct Zst;
+static ZST_DROPS: AtomicU64 = AtomicU64::new(0);
+pub fn zst_drops() -> u64 {
+    ZST_DROPS.load(Relaxed)
+}
+impl Payload for Zst {
+    const ALLOCATES: bool = false;
+    const NAME: &'static str = "Zst";
+    const ANON: bool = true;
+    fn new(_tag: u32) -> Self {
+        Zst
+    }
+    fn tag(&self) -> u32 {
+        UNTRACKED
+    }
+}
+impl Clone for Zst {
+    fn clone(&self) -> Self {
+        Zst
+    }
+}
+impl Drop for Zst {
+    fn drop(&mut self) {
+        ZST_DROPS.fetch_add(1, Relaxed);
     }
 }
